@@ -54,6 +54,32 @@ def gen_c06(seed, index):
     return {"cfg": g.cfg, "ops": [], "rows": {"d": d, "r": r, "c": c}, "cuts": cuts, "queries": g.ops}
 
 
+def gen_c06_large(seed, index):
+    """histories of more than 2^11 rows cut so that single chunks exceed 2^10 rows (block-wise code paths), and
+    one-row chunks after a long prefix"""
+    rng = random.Random("%s/C06-large/%s" % (seed, index))
+    kinds = ["linucb", "greedy", "lingreedy", "ucb", "thompson", "linucb"]
+    lpk = kinds[index % len(kinds)]
+    lp = G.gen_lp(rng, lpk)
+    if "eps" in lp:
+        lp["eps"] = 0.0
+    npk = rng.choice([None, None, "knn", "radius"]) if lpk not in G.LIN_KINDS else None
+    arms = [1, 2, 3]
+    d = 2
+    npc = G.gen_np(rng, npk, len(arms), d)
+    if npc and npc["k"] == "radius":
+        npc["probs"] = None
+    n = rng.choice([2100, 2300])
+    dec = [arms[0] if rng.random() < 0.9 else rng.choice(arms[1:]) for _ in range(n)]
+    rew = [float(rng.choice([0, 1])) for _ in range(n)]
+    contextual = npk is not None or lpk in G.LIN_KINDS
+    ctx = [[float(rng.randint(0, 4)), float(rng.randint(0, 4))] for _ in range(n)] if contextual else None
+    cuts = rng.choice([[1030], [1040, 2080], [1025, 1026, 1027], [5, 1100]])
+    q = {"op": "pexp", "c": [[1.0, 2.0], [3.0, 0.0]] if contextual else None}
+    cfg = {"lp": lp, "np": npc, "arms": arms, "seed": rng.randint(0, 10 ** 6), "binz": None, "n_jobs": 1}
+    return {"cfg": cfg, "ops": [], "rows": {"d": dec, "r": rew, "c": ctx}, "cuts": cuts, "queries": [q]}
+
+
 @twin("batch_vs_chunked")
 @T.quiet
 def batch_vs_chunked(scn):
@@ -490,6 +516,21 @@ def gen_c05(seed, index):
     scn["backend"] = rng.choice([None, "threading", "threading", "threading", "threading"])
     if scn["backend"] is None:
         scn["jobs"] = rng.choice([2, 3])      # process pools: keep the number of workers small
+    return scn
+
+
+def gen_c05_large(seed, index):
+    """query batches of 2^k + 1 rows under several workers"""
+    scn = gen_c08_large(seed, 7000 + index)
+    rng = random.Random("%s/C05-large/%s" % (seed, index))
+    lp = scn["cfg"]["lp"]
+    if (scn["cfg"].get("np") or {}).get("k") != "tree" and rng.random() < 0.5:
+        lp = G.gen_lp(rng, rng.choice(["thompson", "softmax"]))
+        scn["ops"][0]["r"] = [rng.choice([0, 1]) for _ in scn["ops"][0]["r"]]
+    scn["cfg"] = dict(scn["cfg"], lp=lp, n_jobs=1)
+    scn["cfg"].pop("backend", None)
+    scn["jobs"] = rng.choice([2, 3, 4])
+    scn["backend"] = "threading"
     return scn
 
 
@@ -1140,6 +1181,23 @@ def gen_c02(seed, index):
             if op.get("c"):
                 op["c"] = [[v * fac if k == j else v for k, v in enumerate(row)] for row in op["c"]]
     return scn
+
+
+def gen_c02_large(seed, index):
+    """a single fit with more than 2^10 rows for one arm, with and without per-arm standardisation"""
+    rng = random.Random("%s/C02-large/%s" % (seed, index))
+    lp = {"k": rng.choice(["linucb", "lingreedy", "lints"]), "alpha": 1.0, "eps": 0.0, "lam": rng.choice([1.0, 2.0, 0.5])}
+    if lp["k"] == "lints":
+        lp["alpha"] = 1e-9
+    lp["scale"] = index % 2 == 0
+    arms = [1, 2, 3][:rng.choice([2, 3])]
+    n = rng.choice([1100, 2100, 1030])
+    dec = [arms[0] if rng.random() < 0.95 else rng.choice(arms[1:]) for _ in range(n)]
+    rew = [float(rng.choice([0, 1, 2, 3])) for _ in range(n)]
+    ctx = [[float(rng.randint(0, 4)) + 3.0 * i / n, float(rng.randint(0, 4))] for i in range(n)]
+    return {"cfg": {"lp": lp, "np": None, "arms": arms, "seed": rng.randint(0, 10 ** 6), "binz": None, "n_jobs": 1},
+            "ops": [{"op": "fit", "d": dec, "r": rew, "c": ctx}],
+            "queries": [{"op": "pexp", "c": [[1.0, 2.0], [4.0, 0.0], [2.5, 3.0]]}]}
 
 
 def _ridge_oracle(cfg, arms, d, r, c, query):
